@@ -165,7 +165,8 @@ def collect_actions(run, f: FuncInfo) -> List[Action]:
                 name = "store:extra"
             elif call_attr(c) == "parse_value":
                 name = "parse:field"
-            elif call_attr(c) == "update" and isinstance(c.func, ast.Attribute) and unparse(c.func.value) == "dependencies":
+            elif call_attr(c) == "update" and isinstance(c.func, ast.Attribute) and len(c.args) == 1 \
+                    and isinstance(c.args[0], ast.Attribute) and c.args[0].attr == "dependencies":
                 name = "collect:dependencies"
         if name is None and isinstance(a, ast.Assign) and len(a.targets) == 1 and isinstance(a.targets[0], ast.Subscript) \
                 and unparse(a.targets[0].value) in ret_vars:
